@@ -223,10 +223,16 @@ def run_dir(acc: Acc, seed: int, idx: int, nlines: int, only=None) -> None:
                 return
         snapshot = {str(f.relative_to(root)): f.read_bytes() for f in sorted(root.rglob("*.zo"))}
 
+        # a template pattern that matches EVERY page: opening a link to an existing page must not
+        # re-initialise it (C16's no-clobber, through the link-opening route)
+        (root / "tmpl").mkdir(exist_ok=True)
+        (root / "tmpl" / "any.zot").write_text("# Template.\n\n## Created from template for {{ parent }}\n\n################################ Inbox\n")
+        cfg = db.write_config(root.parent / "cfg.yml", template_pattern_map={r"^.*\.zo$": "tmpl/any.zot"})
+
         def act(path: str, line_no: int, opt=None):
             args = ["action", "open", path, str(line_no)] + ([str(opt)] if opt is not None else [])
             TRACER.start(root)
-            res = db.cli(root, *args)
+            res = db.cli(root, *args, config=cfg)
             ev = TRACER.stop()
             return res, ev
 
